@@ -123,6 +123,7 @@ def extract(tier="quick", configs=None, extra_units=None, jobs=16, drivers=None)
     key = _hash_tree()
     cdir = os.path.join(OUT, "cache", key)
     os.makedirs(cdir, exist_ok=True)
+    os.utime(cdir, None)
     roots = [REPO + "/dispenso/", VERIF + "/drivers/", VERIF + "/fixtures/"]
     lock = open(os.path.join(OUT, "cache", ".lock"), "w")
     fcntl.flock(lock, fcntl.LOCK_EX)
@@ -167,7 +168,10 @@ def extract(tier="quick", configs=None, extra_units=None, jobs=16, drivers=None)
     finally:
         fcntl.flock(lock, fcntl.LOCK_UN)
         lock.close()
-    F = facts.load(outs)
+    pack = None
+    if len(outs) > 40:
+        pack = os.path.join(cdir, "pack_" + hashlib.sha1("|".join(o for _, o in outs).encode()).hexdigest()[:16] + ".marshal")
+    F = facts.load(outs, pack=pack)
     info = {
         "units_parsed": len(outs),
         "units_extracted_now": len(todo),
@@ -180,7 +184,7 @@ def extract(tier="quick", configs=None, extra_units=None, jobs=16, drivers=None)
     return F, info
 
 
-def _prune_cache(cache_root, keep, max_dirs=6):
+def _prune_cache(cache_root, keep, max_dirs=10):
     try:
         ds = [d for d in os.listdir(cache_root) if os.path.isdir(os.path.join(cache_root, d))]
         if len(ds) <= max_dirs:
